@@ -319,6 +319,7 @@ func main() {
 	}
 	r.runModel()
 
+	inventoryStats(res)
 	// every registered entry point must have been exercised
 	ids := make([]string, 0, len(eps))
 	for id := range eps {
@@ -388,3 +389,27 @@ type generator struct {
 var generators []generator
 
 func gen(name string, fn func(r *runner)) { generators = append(generators, generator{name, fn}) }
+
+// inventoryStats reports how the panic-site inventory is discharged (byTheorem vs reviewed
+// arguments), read from the Lean table, so that progress is measurable in the evidence.
+func inventoryStats(res *lib.Result) {
+	dir := os.Getenv("VERIF_DIR")
+	if dir == "" {
+		dir = ".."
+	}
+	b, err := os.ReadFile(dir + "/lean/KitModel/NoPanicInventory.lean")
+	if err != nil {
+		return
+	}
+	re := regexp.MustCompile(`(?m)^  \(0x[0-9a-f]+, \.(\w+)(?: "([^"]*)")?`)
+	total := 0
+	for _, m := range re.FindAllStringSubmatch(string(b), -1) {
+		k := m[1]
+		if k == "byTheorem" {
+			k += ":" + m[2]
+		}
+		res.Distribution["inventory:"+k]++
+		total++
+	}
+	res.Distribution["inventory:sites"] = total
+}
